@@ -146,7 +146,7 @@ def judgeLine (s : JState) (line : String) : JState × String :=
 end Driver.C18
 
 namespace Driver.C18
-/-- `runner` mode: `rcfg <shared|default>`, `reg <k>`, `fin <k>`, `tick`, `end` -> `calls k1 k2 …` (ascending) or `none` -/
+/-- `runner` mode: `rcfg <shared|default>`, `reg <k>`, `fin <k>`, `nest <k> <j>`, `tick`, `end` -> `calls k1 k2 …` (ascending) or `none` -/
 structure RState where
   callsAtReg : Bool := false
   live : List CoapVerif.Model.Runner.Reg := []
@@ -164,6 +164,9 @@ def runnerStep (s : RState) (line : String) : RState × String :=
   | ["fin", k] => match k.toNat? with
     | some k => let (l, c) := CoapVerif.Model.Runner.step s.callsAtReg s.live (.fin k); ({ s with live := l }, fmt c)
     | none => (s, "bad-op")
+  | ["nest", k, j] => match k.toNat?, j.toNat? with
+    | some k, some j => let (l, c) := CoapVerif.Model.Runner.step s.callsAtReg s.live (.nest k j); ({ s with live := l }, fmt c)
+    | _, _ => (s, "bad-op")
   | ["tick"] => let (l, c) := CoapVerif.Model.Runner.step s.callsAtReg s.live .tick; ({ s with live := l }, fmt c)
   | ["end"] => (s, "end")
   | _ => (s, "bad-op")
